@@ -1,11 +1,18 @@
 import Dbg.Model.Avx2
 import Dbg.Spec.C10
+import Dbg.Lemmas.Avx2Proofs
 /-! # C16 — ASCII ingestion is total and path-independent
 
 Table theorems (every one of the 256 byte values, decided by the kernel against the tables regenerated
-from the `match` arms of lib.rs on every run).  The lane-wise theorem about `convert_bases` /
-`pack_32_bases` (vector path = scalar path for every input) is listed as partial; the two paths and the
-raw kernels are compared with the model on arbitrary bytes on every run. -/
+from the `match` arms of lib.rs on every run); lane theorems about the vector kernels, each intrinsic
+transcribed from Intel's pseudo-code: `convert_bases` computes the scalar table on every one of its 32
+lanes for every byte value (`C16_convert`), `pack_32_bases` puts the low two bits of byte `i` into bits
+`63-2i, 62-2i` (`C16_pack`); hence the vector path of `from_acgt_bytes` (whole 32-byte chunks pushed as
+blocks, the tail through `extend`, `len` set at the end) and the scalar path produce the *same value* for
+every byte string (`C16_paths_agree`), a well-formed string standing for the bytewise conversion, which
+renders back to the upper-cased input with non-ACGT replaced by `A` (`C16_render`); the `str` constructor
+agrees on ASCII; the strict constructor returns exactly the maximal ACGT runs (`C16_strict_runs`); the
+hashed-N constructor, for any hasher, leaves ACGT untouched and substitutes `h(pos) % 4` (`C16_hashn`). -/
 namespace Avx2
 
 def isValid (c : Nat) : Bool := Gen.isValidBase.getD c 0 == 1
@@ -37,5 +44,67 @@ theorem C16_str_agrees (cs : List Nat) (h : ∀ c ∈ cs, c < 256) : fromDnaStri
 
 /-- `c as u8` aliasing outside Latin-1 (recorded, not a violation: C16 quantifies over ASCII text) -/
 example : baseToBits (0x141 % 256) = 0 ∧ isValid (0x141 % 256) = true := by decide
+
+/-- **C16 (convert_bases)**: for any 32 bytes, lane by lane the scalar table; the flag = "all ACGT" -/
+theorem C16_convert (input : V) (hv : IsVec input) :
+    (convertBases input).1 = input.map baseToBits ∧ (convertBases input).2 = input.all isValidByte := convert_spec input hv
+
+/-- **C16 (pack_32_bases)**: byte `i` (mod 4) becomes base `i` of the block -/
+theorem C16_pack (bases : V) (hv : IsVec bases) :
+    Block64.blockSeq (BitVec.ofNat 64 (pack32Bases bases)) = bases.map (· % 4) ∧
+    pack32Bases bases = sumTo 32 (fun m => (byte bases (31 - m) % 4) * 4 ^ m) := ⟨pack_block bases hv, pack_sum bases hv⟩
+
+/-- **C16 (both paths)**: each path yields a well-formed string standing for the bytewise conversion -/
+theorem C16_paths (bytes : List Nat) (hb : ∀ b ∈ bytes, b < 256) :
+    (∃ d, fromAcgtBytesVec bytes = some d ∧ DnaStr.Inv d ∧ DnaStr.toSeq d = bytes.map baseToBits) ∧
+    (∃ d, fromAcgtBytesScalar bytes = some d ∧ DnaStr.Inv d ∧ DnaStr.toSeq d = bytes.map baseToBits) :=
+  ⟨fromAcgtBytesVec_spec bytes hb, fromAcgtBytesScalar_spec bytes⟩
+
+/-- **C16 (path independence)**: for every byte string — every length, every byte value in every
+    lane — the vector path and the scalar path return the same `(storage, len)` -/
+theorem C16_paths_agree (bytes : List Nat) (hb : ∀ b ∈ bytes, b < 256) : fromAcgtBytesVec bytes = fromAcgtBytesScalar bytes := by
+  obtain ⟨d1, e1, i1, s1⟩ := fromAcgtBytesVec_spec bytes hb
+  obtain ⟨d2, e2, i2, s2⟩ := fromAcgtBytesScalar_spec bytes
+  rw [e1, e2, DnaStr.repr_inj d1 d2 i1 i2 (by rw [s1, s2])]
+
+/-- **C16 (rendering back)**: the upper-cased input with every non-ACGT byte replaced by `A` -/
+theorem C16_render (bytes : List Nat) (hb : ∀ b ∈ bytes, b < 256) :
+    ∃ d, fromAcgtBytesVec bytes = some d ∧
+      DnaStr.toAsciiVec d = some (bytes.map fun c => if isValid c then upper c else 65) ∧
+      DnaStr.display d = some (bytes.map fun c => if isValid c then upper c else 65) := by
+  obtain ⟨d, e, i, s⟩ := fromAcgtBytesVec_spec bytes hb
+  refine ⟨d, e, ?_, ?_⟩
+  · rw [DnaStr.toAsciiVec_spec d i, s, List.map_map]
+    congr 1
+    apply List.map_congr_left
+    intro c hc
+    exact (C16_render_back ⟨c, hb c hc⟩).1
+  · rw [DnaStr.display_spec d i, s, List.map_map]
+    congr 1
+    apply List.map_congr_left
+    intro c hc
+    exact (C16_render_back ⟨c, hb c hc⟩).2
+
+/-- **C16 (strict constructor)**: exactly the maximal ACGT runs -/
+theorem C16_strict_runs (g0 : List Nat) (segs : List (Nat × List Nat)) (h0 : ∀ c ∈ g0, strictOk c = true)
+    (hs : ∀ s ∈ segs, strictOk s.1 = false ∧ ∀ c ∈ s.2, strictOk c = true) :
+    fromDnaOnlyString (g0 ++ segs.flatMap (fun s => s.1 :: s.2)) =
+      ((g0 :: segs.map (·.2)).filter (fun g => !g.isEmpty)).map (·.map strictBits) := strict_runs g0 segs h0 hs
+
+/-- **C16 (hashed-N constructor)**, for any hasher: ACGT positions are the scalar table, every other
+    position is `h(pos) % 4` — a valid base and a function of (read name, position) only -/
+theorem C16_hashn (bytes : List Nat) (h : Nat → Nat) :
+    ∃ d, fromAcgtBytesHashn bytes h = some d ∧ DnaStr.Inv d ∧
+      DnaStr.toSeq d = bytes.zipIdx.map (fun cp => if Gen.hashnArms.getD cp.1 255 = 255 then h cp.2 % 4 else Gen.hashnArms.getD cp.1 255) :=
+  hashn_spec bytes h
+
+/-- the inline match of the hashed-N constructor is the strict table (ACGT in either case, nothing else) -/
+theorem C16_hashn_arms : Gen.hashnArms = Gen.dnaOnlyBaseToBits := by decide +kernel
+
+/-- non-vacuity: 70 bytes (two vector blocks and a tail) with lower case and invalid bytes -/
+example : ∀ b ∈ (List.replicate 33 97 ++ [0, 255, 78] ++ List.replicate 34 116), b < 256 := by
+  intro b hb
+  simp only [List.mem_append, List.mem_replicate, List.mem_cons, List.mem_nil_iff, or_false] at hb
+  omega
 
 end Avx2
